@@ -13,6 +13,16 @@ LC = "pytato.target.loopy.codegen"
 IR = LC + ".ImplementedResult"
 
 
+CTX_REVIEWED = {
+    "add_substitution":
+        "a substitution rule is no instruction: nothing can be ordered after it. What "
+        "the context collects here is exactly the depends_on the InlinedResult was "
+        "created with, and map_index_lambda hands that same set to the "
+        "SubstitutionRuleResult it creates next (R07-STRATEGY: derived from the one "
+        "generated expression, built with prstnt_ctx.depends_on)",
+}
+
+
 def r_depends(c):
     m = c.model
     subs = [q for q in m.subclasses(IR, strict=True)]
@@ -96,6 +106,44 @@ def r_depends(c):
         c.check(ok, "R07-DEPENDS", fn, "instruction-depends-on-context", m.loc(LC, fd),
                 "the store instruction's depends_on is not the dependency set collected "
                 "by the same context that generated its right-hand side")
+    # every function that asks an ImplementedResult for its loopy expression under
+    # a context of its own reads that context's dependencies afterwards, on every
+    # path (and hands them to the instruction / result it creates)
+    n_ctx = 0
+    for _mi, fd in m.all_functions(modules=[LC]):
+        if m.enclosing_function(fd) is not None:
+            continue
+        for e in find(fd, "$cv = PersistentExpressionContext($st)"):
+            cv = e["$cv"]
+
+            def cl(n, cv=cv):
+                if isinstance(n, ast.Call) and isinstance(n.func, ast.Attribute) \
+                        and n.func.attr == "to_loopy_expression" \
+                        and any(isinstance(a, ast.Name) and a.id == cv for a in n.args):
+                    return "USE"
+                if isinstance(n, ast.Attribute) and n.attr == "depends_on" \
+                        and isinstance(n.value, ast.Name) and n.value.id == cv:
+                    return "READ"
+                return None
+            ps = P.walk(fd, cl)
+            if not any("USE" in ev for ev, _x in ps):
+                continue
+            n_ctx += 1
+            bad = [ev for ev, x in ps if x != "raise" and "USE" in ev
+                   and "READ" not in ev[len(ev) - 1 - ev[::-1].index("USE"):]]
+            if fd.name in CTX_REVIEWED:
+                c.exempt("R07-DEPENDS", m.qualname(fd).replace("pytato.", "", 1),
+                         f"{cv}:dependencies-read-after-every-use", m.loc(LC, e["@node"]),
+                         CTX_REVIEWED[fd.name])
+                continue
+            c.check(not bad, "R07-DEPENDS", m.qualname(fd).replace("pytato.", "", 1),
+                    f"{cv}:dependencies-read-after-every-use", m.loc(LC, e["@node"]),
+                    f"a path asks a result for its loopy expression under `{cv}` and never "
+                    f"reads `{cv}.depends_on` afterwards: the instruction that uses the "
+                    "expression is not ordered after the stores it reads (a 0-d array "
+                    "passed as a scalar argument of a loopy call, say)")
+    if n_ctx < 3:
+        raise AnalysisError(f"only {n_ctx} expression contexts with uses found (floor 3)")
     # PersistentExpressionContext.update_depends_on accumulates (union)
     ud = m.func(LC + ".PersistentExpressionContext.update_depends_on")
     c.check(has(ud, "$s._depends_on = $s._depends_on | $o")
